@@ -13,9 +13,9 @@ class OptimizeConstantCastVisitor(Visitor.DefaultVisitor):
             if isinstance(ci.Type, LinearIR.FloatType):
                 constant = float(constant)
             else:
-                Errors.ERROR_INTERNAL_COMPILER_ERROR.Raise(
-                    f"Cannot cast constant {ci.Value} to type {ci.Type}"
-                )
+                # Only casts to float are folded, everything else is left to
+                # the cast instruction
+                return
             # Parent is basic block, and the parent of the basic block is
             # a function
             cv = ci.Parent.Parent.CreateConstant(ci.Type, constant)
